@@ -47,21 +47,23 @@ Proof. rewrite <- mem_In. destruct (mem x l); intuition congruence. Qed.
 Section Pass.
   Variable ht : N -> N.
   Variable par : N -> N.
+  Variable blk : N -> N.
+  Variable hb : N -> N.     (* height of a VBK block *)
 
   Lemma pass_conn base stale l : forall c c' k,
-    pass par base stale l c = (c', k) ->
+    pass par blk base stale l c = (c', k) ->
     (forall x, In x c' -> In x c \/ In x l) /\ (forall x, In x c -> In x c') /\
     (forall x, In x l -> In x c' \/ In x k) /\ (forall x, In x k -> In x l).
   Proof.
     induction l as [|p r IH]; intros c c' k; cbn [pass].
     - intro H. injection H as <- <-. repeat split; intros; cbn in *; tauto.
-    - destruct (negb (mem p stale) && present base c (par p)).
+    - destruct (negb (mem p stale) && present blk base c (par p)).
       + intro H. destruct (IH _ _ _ H) as (A & B & C & D). repeat split; intros x Hx.
         * destruct (A x Hx) as [[->|]|]; cbn; tauto.
         * apply B. right. exact Hx.
         * destruct Hx as [->|Hx]; [left; apply B; left; reflexivity | apply C; exact Hx].
         * right. apply D. exact Hx.
-      + destruct (pass par base stale r c) as [c2 k2] eqn:E. intro H. injection H as <- <-.
+      + destruct (pass par blk base stale r c) as [c2 k2] eqn:E. intro H. injection H as <- <-.
         destruct (IH _ _ _ E) as (A & B & C & D). repeat split; intros x Hx.
         * destruct (A x Hx); cbn; tauto.
         * apply B. exact Hx.
@@ -71,27 +73,29 @@ Section Pass.
 
   (** height-sortedness: context blocks come before their dependants *)
   Lemma pass_complete_lemma base stale :
-    (forall q, ht (par q) < ht q) ->
+    (forall q, hb (blk q) = ht q) -> (forall q, hb (par q) < ht q) ->
     forall l c c' k,
       sorted ht l = true ->
-      pass par base stale l c = (c', k) ->
-      forall p, In p k -> mem p stale = false -> present base c' (par p) = false.
+      pass par blk base stale l c = (c', k) ->
+      forall p, In p k -> mem p stale = false -> present blk base c' (par p) = false.
   Proof.
-    intros Hpar. induction l as [|p0 r IH]; intros c c' k S; cbn [pass].
+    intros Hblk Hpar. induction l as [|p0 r IH]; intros c c' k S; cbn [pass].
     - intro H. injection H as <- <-. intros p [].
     - cbn [sorted] in S. apply andb_true_iff in S. destruct S as [S1 S2].
-      destruct (negb (mem p0 stale) && present base c (par p0)) eqn:Cnd.
+      destruct (negb (mem p0 stale) && present blk base c (par p0)) eqn:Cnd.
       + intro H. apply (IH _ _ _ S2 H).
-      + destruct (pass par base stale r c) as [c2 k2] eqn:E. intro H. injection H as <- <-.
+      + destruct (pass par blk base stale r c) as [c2 k2] eqn:E. intro H. injection H as <- <-.
         intros p [<-|Hp] Hst; [|apply (IH _ _ _ S2 E p Hp Hst)].
         rewrite Hst in Cnd. cbn [negb andb] in Cnd.
         unfold present in *. apply orb_false_iff in Cnd. destruct Cnd as [C1 C2].
         rewrite C1. cbn [orb]. apply mem_false. intro X.
+        apply in_map_iff in X. destruct X as (q & Bq & Xq).
         destruct (pass_conn _ _ _ _ _ _ E) as (A & _).
-        destruct (A _ X) as [Y|Y].
-        * apply mem_false in C2. contradiction.
+        destruct (A _ Xq) as [Y|Y].
+        * apply mem_false in C2. apply C2. apply in_map_iff. exists q. split; assumption.
         * rewrite forallb_forall in S1. specialize (S1 _ Y).
-          unfold lt in S1. apply negb_true_iff, N.ltb_ge in S1. specialize (Hpar p0). lia.
+          unfold lt in S1. apply negb_true_iff, N.ltb_ge in S1.
+          pose proof (Hpar p0) as H1. pose proof (Hblk q) as H2. rewrite Bq in H2. lia.
   Qed.
 End Pass.
 
@@ -99,9 +103,10 @@ End Pass.
 Section Inv.
   Variable ht : N -> N.
   Variable par : N -> N.
+  Variable blk : N -> N.
   Notation Inv := (Inv ht).
-  Notation submit := (submit ht par).
-  Notation connect_pass := (connect_pass ht par).
+  Notation submit := (submit ht par blk).
+  Notation connect_pass := (connect_pass ht par blk).
 
   (* association-list facts *)
   Lemma m_remove_absent k m : m_find k m = None -> m_remove k m = m.
@@ -230,7 +235,7 @@ Section Inv.
       + intros _. unfold known, connected, inflight. cbn [conn infl]. rewrite Vm, m_find_set_same.
         split; [apply orb_true_r | intro X; unfold connected in Hc; congruence].
       + discriminate.
-    - cbn [fine andb]. destruct (present base (conn s) (par p)).
+    - cbn [fine andb]. destruct (present blk base (conn s) (par p)).
       + destruct (erase_shape p (infl s) I) as (f' & -> & I' & Vm).
         unfold connected in Hc. rewrite Hc.
         exists (mkp (p :: conn s) f'). split; [reflexivity|]. split; [|split; [|split]].
@@ -300,7 +305,7 @@ Section Inv.
 
   Lemma tryConnect_inv base stale s :
     PInv s ->
-    exists s', tryConnect ht par base stale s = POk s' /\ PInv s' /\
+    exists s', tryConnect ht par blk base stale s = POk s' /\ PInv s' /\
       (forall q, known s q = false -> known s' q = false) /\
       (forall q, known s q = true -> known s' q = true).
   Proof.
@@ -344,11 +349,11 @@ Section Inv.
     destruct H as [C F]. rewrite F, orb_false_r. apply mem_false. apply mem_false in C. intro X. apply filter_In in X. tauto.
   Qed.
 
-  Lemma cleanUp_inv stale s :
-    PInv s -> exists s', cleanUp ht stale s = POk s' /\ PInv s' /\ (forall q, known s q = false -> known s' q = false).
+  Lemma cleanUp_inv stale gf s :
+    PInv s -> exists s', cleanUp ht stale gf s = POk s' /\ PInv s' /\ (forall q, known s q = false -> known s' q = false).
   Proof.
     intros I. pose proof I as (If & ND & KV & DJ). unfold cleanUp.
-    destruct (erase_all_inv (filter (fun k => mem k stale) (map fst (vmap (infl s)))) (infl s) If KV)
+    destruct (erase_all_inv (filter (fun k => mem k gf) (map fst (vmap (infl s)))) (infl s) If KV)
       as (f' & -> & I' & KV' & Nn).
     exists (mkp (filter (fun p => negb (mem p stale)) (conn s)) f'). split; [reflexivity|]. split.
     - unfold PInv. cbn [conn infl]. refine (conj I' (conj (NoDup_filter _ ND) (conj KV' _))).
@@ -364,29 +369,29 @@ Section Inv.
 
   Lemma pstep_inv s o :
     PInv s -> (match o with Submit _ _ p => connected s p = false | _ => True end) ->
-    exists s', pstep ht par s o = POk s' /\ PInv s' /\
+    exists s', pstep ht par blk s o = POk s' /\ PInv s' /\
       (forall p, ~ targets o p -> known s p = false -> known s' p = false).
   Proof.
-    intros I C. destruct o as [base v p|base stale|ids base stale|stale|]; cbn [pstep].
+    intros I C. destruct o as [base v p|base stale gone gf|ids base stale gone gf|stale gf|]; cbn [pstep].
     - destruct (submit_inv base v p s I C) as (s' & E & I' & Oth & _ & _).
       exists s'. split; [exact E|]. split; [exact I'|]. intros q Hq. cbn [targets] in Hq.
       assert (q <> p) by congruence. rewrite !known_split. destruct (Oth q H) as [A B]. rewrite A, B. tauto.
     - unfold generate. destruct (tryConnect_inv base stale s I) as (s1 & -> & I1 & Kf & _).
-      destruct (cleanUp_inv stale s1 I1) as (s' & -> & I' & Kf').
+      destruct (cleanUp_inv gone gf s1 I1) as (s' & -> & I' & Kf').
       exists s'. split; [reflexivity|]. split; [exact I'|]. intros p _ Hp. apply Kf', Kf. exact Hp.
-    - unfold removeAll.
-      destruct (cleanUp_inv stale _ (filter_pinv (fun p => negb (mem p ids)) s I)) as (s1 & -> & I1 & Kf1).
+    - unfold removeAll, dropIds.
+      destruct (cleanUp_inv gone gf _ (filter_pinv (fun p => negb (mem p ids)) s I)) as (s1 & -> & I1 & Kf1).
       destruct (tryConnect_inv base stale s1 I1) as (s' & -> & I' & Kf & _).
       exists s'. split; [reflexivity|]. split; [exact I'|]. intros p _ Hp. apply Kf, Kf1, filter_known. exact Hp.
-    - destruct (cleanUp_inv stale s I) as (s' & -> & I' & Kf). exists s'.
+    - destruct (cleanUp_inv stale gf s I) as (s' & -> & I' & Kf). exists s'.
       split; [reflexivity|]. split; [exact I'|]. intros p _ Hp. apply Kf. exact Hp.
     - unfold clear. destruct I as (If & _). unfold VsmDefs.clear. rewrite (inv_checked ht _ If).
       exists (mkp [] empty). split; [reflexivity|]. split; [apply pinv_empty|]. intros; reflexivity.
   Qed.
 
   (** every history that respects the caller contract runs without a failing assertion and keeps the invariant *)
-  Lemma prun_inv ops : forall s, PInv s -> contract ht par s ops ->
-    exists s', prun ht par s ops = POk s' /\ PInv s'.
+  Lemma prun_inv ops : forall s, PInv s -> contract ht par blk s ops ->
+    exists s', prun ht par blk s ops = POk s' /\ PInv s'.
   Proof.
     induction ops as [|o r IH]; intros s I C; cbn [prun].
     - exists s. split; [reflexivity | exact I].
@@ -395,8 +400,8 @@ Section Inv.
   Qed.
 
   Lemma partition_lemma ops :
-    contract ht par pempty ops ->
-    exists s, prun ht par pempty ops = POk s /\
+    contract ht par blk pempty ops ->
+    exists s, prun ht par blk pempty ops = POk s /\
       NoDup (conn s) /\
       (forall p, ~ (connected s p = true /\ inflight s p = true)) /\
       (forall p, known s p = true <-> (connected s p = true \/ inflight s p = true)).
@@ -408,8 +413,8 @@ Section Inv.
   Qed.
 
   Lemma views_agree_lemma ops :
-    contract ht par pempty ops ->
-    exists s, prun ht par pempty ops = POk s /\
+    contract ht par blk pempty ops ->
+    exists s, prun ht par blk pempty ops = POk s /\
       Permutation (vset (infl s)) (map fst (vmap (infl s))) /\
       sorted ht (vset (infl s)) = true /\
       NoDup (vset (infl s)) /\
@@ -426,7 +431,7 @@ Section Inv.
 
   Lemma removed_stay_removed_lemma s o s' p :
     PInv s -> (match o with Submit _ _ q => connected s q = false | _ => True end) ->
-    ~ targets o p -> known s p = false -> pstep ht par s o = POk s' -> known s' p = false.
+    ~ targets o p -> known s p = false -> pstep ht par blk s o = POk s' -> known s' p = false.
   Proof.
     intros I C T K E. destruct (pstep_inv s o I C) as (s1 & E1 & _ & Kf). rewrite E in E1. injection E1 as <-.
     apply Kf; assumption.
@@ -437,7 +442,7 @@ Section Inv.
   Lemma never_lost_lemma :
     (forall base v p s s', PInv s -> connected s p = false -> v <> Stateless ->
        submit base v p s = POk s' -> known s' p = true) /\
-    (forall base stale s s', PInv s -> tryConnect ht par base stale s = POk s' ->
+    (forall base stale s s', PInv s -> tryConnect ht par blk base stale s = POk s' ->
        forall q, known s q = true -> known s' q = true).
   Proof.
     split.
@@ -450,12 +455,12 @@ Section Inv.
   (** *** the pass of tryConnectPayloads takes exactly the decisions of [pass] *)
   Lemma submit_conn base v p s s' :
     submit base v p s = POk s' -> connected s p = false ->
-    conn s' = if fine v && present base (conn s) (par p) then p :: conn s else conn s.
+    conn s' = if fine v && present blk base (conn s) (par p) then p :: conn s else conn s.
   Proof.
     unfold PoolDefs.submit, connected. intros E Hc. destruct v; cbn [fine andb] in *.
     - injection E as <-. reflexivity.
     - destruct (insert ht p p (infl s)); [injection E as <-; reflexivity | discriminate].
-    - destruct (present base (conn s) (par p)).
+    - destruct (present blk base (conn s) (par p)).
       + destruct (erase ht p (infl s)); [injection E as <-; cbn [conn]; rewrite Hc; reflexivity | discriminate].
       + destruct (insert ht p p (infl s)); [injection E as <-; reflexivity | discriminate].
   Qed.
@@ -466,7 +471,7 @@ Section Inv.
   Lemma connect_pass_conn base stale : forall l s s',
     PInv s -> NoDup l -> (forall q, In q l -> connected s q = false) ->
     connect_pass base stale l s = POk s' ->
-    conn s' = fst (pass par base stale l (conn s)).
+    conn s' = fst (pass par blk base stale l (conn s)).
   Proof.
     induction l as [|p r IH]; intros s s' I ND Hc; cbn [PoolDefs.connect_pass pass].
     - intro E. injection E as <-. reflexivity.
@@ -478,20 +483,21 @@ Section Inv.
         rewrite (proj1 (Oth q H)). apply Hc. right. exact Hq. }
       rewrite (IH s1 s' I1 NDr Hc1 E).
       rewrite (submit_conn _ _ _ _ _ E1 (Hc p (or_introl eq_refl))), fine_vd.
-      destruct (negb (mem p stale) && present base (conn s) (par p)); [reflexivity|].
-      destruct (pass par base stale r (conn s)); reflexivity.
+      destruct (negb (mem p stale) && present blk base (conn s) (par p)); [reflexivity|].
+      destruct (pass par blk base stale r (conn s)); reflexivity.
   Qed.
 
   (** after the missing context was submitted, ONE tryConnectPayloads pass connects every in-flight payload that
       passes the contextual check and whose context block is present afterwards - whatever the submission order
       was. Uses the height order of the in-flight view: a context block is lower than its dependants. *)
+  Variable hb : N -> N.
   Lemma inflight_eventually_connected_lemma base stale s s' :
-    (forall q, ht (par q) < ht q) ->
-    PInv s -> tryConnect ht par base stale s = POk s' ->
+    (forall q, hb (blk q) = ht q) -> (forall q, hb (par q) < ht q) ->
+    PInv s -> tryConnect ht par blk base stale s = POk s' ->
     forall p, inflight s' p = true -> mem p stale = false ->
-      present base (conn s') (par p) = false.
+      present blk base (conn s') (par p) = false.
   Proof.
-    intros Hpar I E p Fp St.
+    intros Hblk Hpar I E p Fp St.
     destruct (tryConnect_inv base stale s I) as (s1 & E1 & I' & Kf & _). rewrite E in E1. injection E1 as <-.
     unfold tryConnect in E.
     pose proof I as ((P & S & NDk) & _ & KV & DJ).
@@ -501,8 +507,8 @@ Section Inv.
     { intros q Hq. pose proof (inflight_in_set s q I Hq) as F.
       destruct (connected s q) eqn:C; [rewrite (DJ q C) in F; discriminate | reflexivity]. }
     pose proof (connect_pass_conn base stale _ s s' I ND Hc E) as Cn.
-    destruct (pass par base stale (vset (infl s)) (conn s)) as [c' k] eqn:Ps. cbn [fst] in Cn.
-    destruct (pass_conn ht par base stale _ _ _ _ Ps) as (_ & Mono & Cover & _).
+    destruct (pass par blk base stale (vset (infl s)) (conn s)) as [c' k] eqn:Ps. cbn [fst] in Cn.
+    destruct (pass_conn ht par blk hb base stale _ _ _ _ Ps) as (_ & Mono & Cover & _).
     (* p is not connected afterwards *)
     assert (connected s' p = false) as NC.
     { destruct I' as (_ & _ & _ & DJ'). destruct (connected s' p) eqn:C; [rewrite (DJ' p C) in Fp; discriminate | reflexivity]. }
@@ -516,6 +522,6 @@ Section Inv.
         eapply Permutation_in; [symmetry; exact P|]. rewrite (kv_same_map _ KV). eapply m_find_keys. exact G. }
     destruct (Cover p Pin) as [X|X].
     - exfalso. rewrite <- Cn in X. apply mem_In in X. unfold connected in NC. congruence.
-    - rewrite Cn. eapply (pass_complete_lemma ht par base stale Hpar); [exact S | exact Ps | exact X | exact St].
+    - rewrite Cn. eapply (pass_complete_lemma ht par blk hb base stale Hblk Hpar); [exact S | exact Ps | exact X | exact St].
   Qed.
 End Inv.
